@@ -48,10 +48,16 @@ def direct_case(rng):
     feed = []
     level = {a: 10 ** rng.uniform(-1, 3) for a in assets}
     jump = rng.random() < 0.3
+    pegged = rng.random() < 0.12           # a pegged instrument: every close within a few parts per million of 1.0
+    if pegged:
+        level = {a: 1.0 for a in assets}
     for _ in range(length):
         order = list(assets)
         rng.shuffle(order)
         for a in order:
+            if pegged:
+                feed.append([a, round(1.0 + rng.uniform(-4e-6, 4e-6), 8)])
+                continue
             if rng.random() < 0.85:
                 level[a] = max(0.01, level[a] * (1 + rng.gauss(0, 0.03)))
                 if jump and rng.random() < 0.05:
